@@ -1,7 +1,7 @@
 """C01 - authorization verdict is exact; a witness cannot truncate or skip the lock."""
 from __future__ import annotations
 import copy
-from .. import env, hyp, optable as O, refasm as R, render, builders
+from .. import env, hyp, optable as O, refasm as R, render, builders, refvm
 from ..util import headroom
 from hypothesis import strategies as st
 
@@ -57,6 +57,24 @@ def compose(scripts, cache_vals, limits):
         return False
 
 
+def ref_verdict(scripts, cache_vals, limits):
+    """The statement, executed on the independent reference interpreter: every script in order on one stack, cache,
+    definition table and call budget; a script's own RETURN ends that script only. -> True / False / None (the
+    reference stops at something the specification leaves open)"""
+    cache = {'timestamp': 1_700_000_000}
+    cache.update({k: copy.deepcopy(v) for k, v in cache_vals.items() if k != 'returned'})
+    r = refvm.Ref(cache, tuple(limits), int_enc=F.int_to_bytes, now=1_700_000_000, token_bytes=env.DetRandom(b'c01'), contracts={})
+    defs = {}
+    try:
+        for s in scripts:
+            r.run(s, defs, 0)
+    except refvm.Err:
+        return False
+    except (refvm.Stop, RecursionError):
+        return None
+    return r.stack == [b'\xff']
+
+
 def _auth(scripts, cache_vals, limits):
     mi, ms, cl = limits
     return F.run_auth_scripts(list(scripts), copy.deepcopy(cache_vals), stack_max_items=mi, stack_max_item_size=ms,
@@ -85,6 +103,13 @@ def evaluate(scripts, cache_vals, limits, sentinel_ok):
             if got != exp:
                 fails.append(('compose/%s' % ('authorises-but-composition-does-not' if got else
                                               'rejects-but-composition-authorises'),
+                              '%s got %r' % ([s.hex()[:60] for s in scripts], got)))
+            # independent model of the statement
+            with headroom(3000):
+                model = ref_verdict(scripts, cache_vals, limits)
+            info['model'] = model
+            if model is not None and model != got:
+                fails.append(('model/%s' % ('authorises-but-the-specification-rejects' if got else 'rejects-but-the-specification-authorises'),
                               '%s got %r' % ([s.hex()[:60] for s in scripts], got)))
             # a stale RETURN marker in the initial cache (e.g. the cache handed back by an earlier run_script) is not an input
             if 'returned' not in cache_vals:
@@ -226,6 +251,11 @@ def script_tree(max_depth=3, tape_return=True):
                                              [I('OP_TRUE'), ['if', [I('OP_RETURN')]], I('OP_TRUE')],
                                              [['try', [I('OP_RETURN')], []]], [['push', b'j'], I('OP_RETURN')]]))
                 return [['push', R.encode(render.lower(code))], I('OP_EVAL')]
+            if r < 70 and depth < max_depth:
+                # a function that calls one defined (or redefined) only after it: late binding against the live table
+                g = draw(st.integers(0, 2))
+                h = (g + draw(st.integers(1, 2))) % 3
+                return [['def', g, [I('OP_CALL', h)]], ['def', h, draw(seq(depth + 1, True))], I('OP_CALL', g)]
             return [draw(st.sampled_from(PLAIN))]
         return st.lists(node(), min_size=0, max_size=5).map(lambda ll: [x for l in ll for x in l])
     return seq(0, tape_return)
@@ -315,6 +345,7 @@ def _static_nt(progs):
 def _one(ctx, scripts, cache_vals, lim, sentinel, case, nt):
     fails, info = evaluate(scripts, cache_vals, lim, sentinel)
     ctx.case((scripts, cache_vals, lim), nt)
+    ctx.count('model:%s' % info.get('model'))
     ctx.count('verdict:%s' % info.get('verdict'))
     ctx.count('n_scripts:%d' % len(scripts))
     for s, d in fails:
